@@ -354,6 +354,15 @@ Mutations(D) ==
       Stray == {M("stray_content", "ins", i, "0", "grammar", i)
                   : i \in {j \in 2..n : EnclIdx(j) # 0 /\ L[EnclIdx(j)].name \in {"FeatMeshFile", "Chart", "Extrude", "Bezier", "Mesh", "MeshPart", "Partition"}}}
 
+      \* degenerate markups: a markup line without a name, or terminator and closed at the same time, is a syntax error of
+      \* that line whatever stands around the slashes
+      MarkupLines == {j \in 1..n : L[j].k \in {"open", "close", "leaf"}}
+      Degenerate == {M("degenerate_markup", "rep", i, Sp(ind, L[i].lvl) \o t, "syntax", i)
+                       : i \in MarkupLines, t \in {"</>", "< / >", "</ >", "<>", "< >", "<//>"}}
+                    \cup {M("degenerate_markup", "rep", i, Sp(ind, L[i].lvl) \o "</" \o L[i].name \o "/>", "syntax", i) : i \in MarkupLines}
+                    \cup {M("degenerate_markup", "rep", i, Sp(ind, L[i].lvl) \o "<" \o L[i].name \o "//>", "syntax", i) : i \in MarkupLines}
+                    \cup {M("degenerate_markup", "rep", i, Sp(ind, L[i].lvl) \o "< /" \o L[i].name \o " / >", "syntax", i) : i \in MarkupLines}
+
       \* attributes
       AttrLines == {j \in 1..n : L[j].k \in {"open", "leaf"}}
       RemoveOptional(i, key) ==
@@ -551,7 +560,7 @@ Mutations(D) ==
                  {M("token_trailing_garbage", "rep", i, RepTok(i, 1, L[i].toks[1] \o " 0"), "content", i) : i \in DataIn("Mapping") \cup DataIn("Patch")} \cup
                  {M("token_trailing_garbage", "rep", i, RepTok(i, t, L[i].toks[t] \o ".5"), "content", i)
                     : i \in DataIn("Topology"), t \in {1}}
-  IN Trunc \cup DelData \cup DupData \cup DelOpen \cup DelLeaf \cup DelClose \cup Unknown \cup Unbal \cup Stray
+  IN Trunc \cup Degenerate \cup DelData \cup DupData \cup DelOpen \cup DelLeaf \cup DelClose \cup Unknown \cup Unbal \cup Stray
      \cup MissAttr \cup ExtraAttr \cup ClosedMk \cup Counts \cup SizeLen \cup TopoDim \cup MapDim \cup AttrDim
      \cup MeshType \cup RootType \cup PartAttr \cup PtnAttr \cup ChartAttr \cup TopoIdx \cup PatchIdx \cup MapIdx \cup MapMissing \cup Tokens \cup Garbage
 
